@@ -123,6 +123,20 @@ class Inliner:
         return guard_atoms([(self(t), p) for t, p in guards])
 
 
+def with_inlined_tests(fnode):
+    """Deep copy of a function in which every branch test (`if` / `while` / `assert` / conditional expression) is
+    written out with its once-bound locals replaced by what they stand for, so that a path-sensitive search sees
+    `if not failed or not retry:` where the source says `mark = not failed or not retry; if mark:`.  The copy has
+    its own node identities: build CFG, parent map and stores from the copy."""
+    new = copy.deepcopy(fnode)
+    inl2 = Inliner(new, allow_calls=False)
+    for n in ast.walk(new):
+        if isinstance(n, (ast.If, ast.While, ast.Assert, ast.IfExp)):
+            n.test = inl2(n.test)
+    ast.fix_missing_locations(new)
+    return new
+
+
 def rcall_nodes(g, inl: Inliner, pred: Callable[[str, ast.Call], bool]) -> List[int]:
     """CFG nodes whose own expression contains a call with pred(callee after alias resolution, call)."""
     out = []
